@@ -1,3 +1,43 @@
-From NP Require Import Base.
-Theorem placeholder_C19 : True. Proof. exact I. Qed.
-Print Assumptions placeholder_C19.
+(* C19 — Arrow interchange is lossless in both orientations.
+   For EVERY physical column satisfying the invariant (any chunking, any offsets base, fields that are windows
+   of different value buffers, missing and empty rows): the list-of-structs export (transpose_struct_list_array
+   per chunk) holds exactly the records of every row and keeps missing rows missing; importing it again
+   (transpose_list_struct_array, constructor) gives a column that denotes the SAME logical column and satisfies
+   the invariant again; transposing twice is the identity on the exported rows; importing any well-formed
+   list-of-structs chunk (also one built by plain Arrow, sliced) keeps its rows. *)
+From Coq Require Import String List Arith Bool ZArith.
+Import ListNotations.
+From NP Require Import Base Values Arrow Abs Kernels Logical ExtArray Codec Steps
+  Proofs_Views Proofs_Codec Proofs_Transpose.
+From NP Require Import Props.C03.
+
+Theorem C19_export_same_records : forall p, inv_b p = true -> m_list_struct_rows p = Ok (rows_of (abs p)).
+Proof. exact export_rows. Qed.
+Print Assumptions C19_export_same_records.
+
+Theorem C19_import_of_export_is_identity : forall p, inv_b p = true ->
+  res_map abs (m_roundtrip_ls p) = Ok (abs p).
+Proof. intros p H. exact (roundtripls_refines p H eq_refl). Qed.
+Print Assumptions C19_import_of_export_is_identity.
+
+Theorem C19_import_keeps_invariant : forall p p', inv_b p = true -> m_roundtrip_ls p = Ok p' -> inv_b p' = true.
+Proof. intros p p' H E. exact (roundtripls_inv p p' H eq_refl E). Qed.
+Print Assumptions C19_import_keeps_invariant.
+
+Theorem C19_transposing_twice : forall p p', inv_b p = true -> m_roundtrip_ls p = Ok p' ->
+  m_list_struct_rows p' = m_list_struct_rows p.
+Proof. exact double_transpose. Qed.
+Print Assumptions C19_transposing_twice.
+
+Theorem C19_import_keeps_rows : forall a, wf_ls_b a = true -> forall c, c = m_transpose_ls a ->
+  map2 (fun (s : bool) r => if s then Some r else None) (svalid c)
+       (map (fun i => map (fun col => nth i col []) (chunk_cols c)) (seq 0 (sc_len c)))
+  = ls_rows a.
+Proof. exact import_rows. Qed.
+Print Assumptions C19_import_keeps_rows.
+
+Example C19_hypotheses_satisfiable :
+  inv_b sample_col = true
+  /\ m_list_struct_rows sample_col
+     = Ok [ Some [[VInt 1; VInt 2]; [VTok 1; VNull]]; None; Some [[]; []]; Some [[VInt 3; VInt 4; VNull]; [VTok 5; VTok 6; VTok 7]] ].
+Proof. split; [reflexivity|]. vm_compute. reflexivity. Qed.
